@@ -66,6 +66,7 @@ type Step struct {
 
 // Scenario is one closed C17 scenario.
 type Scenario struct {
+	BigGeom  bool     `json:"big_geom,omitempty"` // generation note only: the pool holds a large multi-part geometry
 	Pool     []Arg    `json:"pool"`
 	Calls    []Call   `json:"calls"`
 	Workers  [][]Step `json:"workers"`
@@ -101,7 +102,7 @@ func (prop) Describe() core.Description {
 		RealComponents: []string{"go-geom root package", "xy", "xyz", "bigxy", "xy/lineintersector", "transform", "encoding/wkb", "encoding/ewkb", "wkbhex/ewkbhex", "SQL wrappers", "encoding/wkt", "encoding/geojson", "encoding/kml", "encoding/igc", "Go runtime scheduler and race detector"},
 		StubComponents: []string{"caller goroutines (seeded programs)", "io.Reader/io.Writer under stream codecs (simio, per call)"},
 		FaultKinds:     []string{"shared-argument-overlap", "same-call-on->=2-workers", "gosched-yields"},
-		Probes:         []string{"probe:hull>50pts", "probe:hull-degenerate-octagon", "probe:decoder-and-encoder-share-bytes", "probe:wkt-parse-x>=4", "probe:panic-as-result", "probe:maxprocs=1", "probe:workers>=8", "probe:shared-option-value-on->=2-workers", "probe:geometry-with-layout-none-or->XYZM", "probe:refused-geometry-meets-shared-option-value"},
+		Probes:         []string{"probe:hull>50pts", "probe:hull-degenerate-octagon", "probe:decoder-and-encoder-share-bytes", "probe:wkt-parse-x>=4", "probe:panic-as-result", "probe:maxprocs=1", "probe:workers>=8", "probe:shared-option-value-on->=2-workers", "probe:large-multi-part-geometry", "probe:geometry-with-layout-none-or->XYZM", "probe:refused-geometry-meets-shared-option-value"},
 	}
 }
 
@@ -699,6 +700,9 @@ func (prop) Execute(scAny any, phase string, log *core.Log) core.Result {
 	if s.MaxProcs == 1 {
 		res.Count("probe:maxprocs=1", 1)
 	}
+	if s.BigGeom {
+		res.Count("probe:large-multi-part-geometry", 1)
+	}
 	if len(s.Workers) >= 8 {
 		res.Count("probe:workers>=8", 1)
 	}
@@ -1247,6 +1251,27 @@ func (prop) Generate(r *prng.Rand, phase string) any {
 				g.pool = append(g.pool, items[0])
 				s.Calls = append(s.Calls, Call{Fn: f.name, A: []int{len(g.pool) - 1, c.A[1]}, I: c.I, X: c.X})
 			}
+		}
+	}
+	if r.Chance(0.02) {
+		// a large multi-part geometry (1 100 ... 2 300 coordinates of full
+		// precision) and the whole-geometry functions on it: where a library
+		// would switch to a blocked or parallel path
+		t := []string{mgeom.MPg, mgeom.MPg, mgeom.Pg, mgeom.MLS, mgeom.LS, mgeom.MPt}[r.Intn(6)]
+		big := g.cfg
+		big.FloatMode = 3
+		a := Arg{K: "g", G: big.BigOfType(r, t, 1+r.Intn(4), []int{1100, 2100, 2300}[r.Intn(3)])}
+		if items, err := buildPool([]Arg{a}); err == nil {
+			g.s.Pool = append(g.s.Pool, a)
+			g.pool = append(g.pool, items[0])
+			names := []string{"T.Area", "T.Length", "T.Bounds", "xy.Centroid", "T.Clone", "T.Coords", "wkb.Marshal", "geojson.Marshal", "wkt.Marshal"}
+			for i := r.Range(2, 3); i > 0; i-- {
+				n := names[r.Intn(len(names))]
+				if ti, ok := tableIndex[n]; ok && len(table[ti].kinds) == 1 {
+					s.Calls = append(s.Calls, Call{Fn: n, A: []int{len(g.pool) - 1}, I: r.Intn(64)})
+				}
+			}
+			s.BigGeom = true
 		}
 	}
 	nw := r.Range(2, 4)
